@@ -46,7 +46,7 @@ func verifItoa2(i int) string { return verifItoa(i) }
 // operand walk: left to right, var=value applied when reached, empty skipped, stdin only if no file operand
 func VerifC11Operands() {
 	nargs := verifIntRange(0, verifBound(2, 3))
-	kinds := []string{"", "-", "v=1", "f1", "f2", "v=2"}
+	kinds := []string{"", "-", "v=1", "f1", "f2", "v=2", "ARGC=1", "ARGC=2", "ARGC=3"}
 	var args []string
 	for i := 0; i < nargs; i++ {
 		args = append(args, kinds[verifIntRange(0, len(kinds)-1)])
@@ -69,9 +69,19 @@ func VerifC11Operands() {
 			want += fname + ":" + verifItoa(nr) + ":" + verifItoa(i+1) + ":" + v + ":" + line + ";"
 		}
 	}
-	for _, a := range args {
+	limit := len(args) // operands ARGV[1..ARGC-1] are processed; an ARGC=n operand takes effect when it is reached
+	for i, a := range args {
+		if i >= limit {
+			break
+		}
 		switch a {
 		case "":
+		case "ARGC=1":
+			limit = 0
+		case "ARGC=2":
+			limit = 1
+		case "ARGC=3":
+			limit = 2
 		case "-":
 			hadFile = true
 			emit("-", stdin)
@@ -106,10 +116,10 @@ func VerifC11Getline() {
 	other = append(other, '\n')
 	fs := &verifFS{files: map[string][]byte{"o": other}}
 	forms := []string{
-		`getline x < "o"`, // only x
-		`getline x`,       // x, NR, FNR
-		`getline < "o"`,   // $0, NF
-		`getline`,         // $0, NF, NR, FNR
+		`getline x < "o"`,  // only x
+		`getline x`,        // x, NR, FNR
+		`getline < "o"`,    // $0, NF
+		`getline`,          // $0, NF, NR, FNR
 		`getline $2 < "o"`, // only field 2 (and with it $0 and NF), not NR/FNR
 		`getline $2`,       // field 2, NR, FNR
 	}
@@ -210,8 +220,8 @@ func VerifC11Control() {
 	src := `function g(c) { while (1) { if (c == "n") next; if (c == "f") nextfile; if (c == "e") exit 3; break } }
 { seen = seen $0; g($0); after = after $0 }
 { second = second $0 }
-END { endrec = $0; endnf = NF; if (endx) exit 5 }`
-	endx := verifIntRange(0, 1)
+END { endrec = $0; endnf = NF; if (endx == 1) exit 5; if (endx == 2) exit 0; if (endx == 3) exit }`
+	endx := verifIntRange(0, 3)
 	cfg := &Config{Stdin: bytes.NewReader(nil), Output: &bytes.Buffer{}, Error: &bytes.Buffer{}, Environ: []string{}, Args: []string{"f1", "f2"}, OpenFile: fs.open,
 		Vars: []string{"endx", verifItoa(endx)}}
 	st, err, p := verifRunProgram(src, cfg, nil)
@@ -246,9 +256,43 @@ END { endrec = $0; endnf = NF; if (endx) exit 5 }`
 	if endx == 1 {
 		status = 5
 	}
+	if endx == 2 {
+		status = 0 // the last exit value wins, also when it is a literal 0
+	}
 	verifReach("ran")
 	verifAssert(verifGlobal(p, "seen").s == seen && verifGlobal(p, "after").s == after && verifGlobal(p, "second").s == after,
 		"next / nextfile / exit (called from inside a function and a loop) skipped the wrong rules, records or files")
 	verifAssert(verifGlobal(p, "endrec").s == last && st == status, "END must still run after exit with $0 of the last record, and the exit status is the last exit value")
 	verifAssert(p.callDepth == 0 && len(p.localArrays) == 0 && len(p.arrays) == len(p.arrayIndexes), "next / nextfile / exit from inside a function left call bookkeeping behind (call depth, local arrays)")
+}
+
+// several getline streams open at once, opened after another stream was closed: each delivers its own file's
+// records in order, whatever the interleaving of the reads
+func VerifC07GetlineStreams() {
+	la, lb := verifBytes(3), verifBytes(2)
+	for _, b := range append(append([]byte{}, la...), lb...) {
+		verifAssume(b != '\n' && b != '\r')
+	}
+	var fa, fb []byte
+	for _, b := range la {
+		fa = append(fa, b, '\n')
+	}
+	for _, b := range lb {
+		fb = append(fb, b, '\n')
+	}
+	fs := &verifFS{files: map[string][]byte{"f0": []byte("zero\n"), "A": fa, "B": fb}}
+	orders := []string{
+		`getline a1 < "A"; getline b1 < "B"; getline a2 < "A"; getline b2 < "B"; getline a3 < "A"`,
+		`getline a1 < "A"; getline a2 < "A"; getline b1 < "B"; getline a3 < "A"; getline b2 < "B"`,
+		`getline b1 < "B"; getline a1 < "A"; getline b2 < "B"; getline a2 < "A"; getline a3 < "A"`,
+	}
+	pre := []string{``, `getline x < "f0"; close("f0"); `, `getline x < "f0"; getline y < "A"; close("A"); close("f0"); `}[verifIntRange(0, 2)]
+	src := `BEGIN { ` + pre + orders[verifIntRange(0, 2)] + ` }`
+	cfg := &Config{Stdin: bytes.NewReader(nil), Output: &bytes.Buffer{}, Error: &bytes.Buffer{}, Environ: []string{}, OpenFile: fs.open}
+	_, err, p := verifRunProgram(src, cfg, nil)
+	verifAssert(err == nil, "run failed")
+	g := func(n string) string { return verifGlobal(p, n).s }
+	verifReach("read")
+	verifAssert(g("a1") == string(la[:1]) && g("a2") == string(la[1:2]) && g("a3") == string(la[2:3]) && g("b1") == string(lb[:1]) && g("b2") == string(lb[1:2]),
+		"interleaved getline streams did not each deliver their own file's records in order")
 }
